@@ -3,6 +3,7 @@ package config
 import (
 	"net"
 	"regexp"
+	"strings"
 	"time"
 
 	"github.com/asaskevich/govalidator"
@@ -44,6 +45,20 @@ func getSizeForValidation(v interface{}, param string) (actual, check datasize.B
 	}
 	actual, ok = v.(datasize.ByteSize)
 	return
+}
+
+// OneOfValidation checks that string field is one of space separated values of the param.
+func OneOfValidation(fl validator.FieldLevel) bool {
+	value, ok := fl.Field().Interface().(string)
+	if !ok {
+		return false
+	}
+	for _, allowed := range strings.Fields(fl.Param()) {
+		if value == allowed {
+			return true
+		}
+	}
+	return false
 }
 
 // "host:port" or ":port"
